@@ -2709,13 +2709,17 @@ impl KotoVm {
         let index = self.clone_register(index_register);
 
         let result = match (&value, index) {
+            // The list's size is checked under the same borrow that reads the data,
+            // otherwise the list could be modified via another thread in between.
             (List(l), Number(n)) => {
-                let index = self.validate_index(n, Some(l.len()))?;
-                l.data()[index].clone()
+                let data = l.data();
+                let index = self.validate_index(n, Some(data.len()))?;
+                data[index].clone()
             }
             (List(l), Range(range)) => {
-                let indices = range.indices(l.len());
-                List(KList::from_slice(&l.data()[indices]))
+                let data = l.data();
+                let indices = range.indices(data.len());
+                List(KList::from_slice(&data[indices]))
             }
             (Tuple(t), Number(n)) => {
                 let index = self.validate_index(n, Some(t.len()))?;
